@@ -8,7 +8,7 @@ TECH = "contract-based deductive verification: weakest-precondition style VCs ge
 
 claims = {
  "C05": dict(
-   text="Proof, for all field values and all lengths, that each packet builder returns exactly the byte sequence of an independent MQTT 3.1.1 specification encoder (ghost spec functions written from the standard): remaining-length codec, length-prefixed fields, CONNECT (all flag combinations), PUBLISH, SUBSCRIBE, UNSUBSCRIBE, the four acknowledgement packets, PINGREQ/DISCONNECT; the decoder side (unpackString/unpackUint16, PUBLISH Parse: flags, topic, id, payload; acknowledgement Parse: id) returns the fields of the bytes it was given; ValidateMessage rejects an over-long payload or QoS>2 and BaseClient.Publish validates before publishImpl is entered; obligations are discharged per function against callee contracts.",
+   text="Proof, for all field values and all lengths, that each packet builder returns exactly the byte sequence of an independent MQTT 3.1.1 specification encoder (ghost spec functions written from the standard): remaining-length codec, length-prefixed fields, CONNECT (all flag combinations), PUBLISH, SUBSCRIBE, UNSUBSCRIBE, the four acknowledgement packets, PINGREQ/DISCONNECT; the decoder side (unpackString/unpackUint16, PUBLISH Parse: flags, topic, id, payload; acknowledgement Parse: id) returns the fields of the bytes it was given; ValidateMessage rejects an over-long payload or QoS>2 and BaseClient.Publish validates before publishImpl is entered; obligations are discharged per function against callee contracts. Decoder completeness: a PUBLISH whose flags, topic and (for QoS>0) identifier are well-formed is accepted, including an empty payload.",
    note="Trusted: SSA->SMT translation, solvers, append/make allocation semantics, UTF-8 validity via string([]rune(s))==s, readPacket's reassembly of the byte stream is covered for safety and bounds (C06) but not for content equality, caller obligations at the API boundary (topic/filter/client id/user/password <= 65535 bytes, body <= 268435455 bytes, QoS <= 2), input slices do not alias. Integers are mathematical with an overflow obligation at every signed operation.",
    ref="DESIGN.md section 4.C05"),
  "C06": dict(
@@ -27,7 +27,7 @@ claims = {
 
 claims.update({
  "C02": dict(
-   text="Proof of the sender-side QoS 2 stage mechanism the exactly-once argument rests on: every error returned before PUBREC carries the PUBLISH-stage retry closure over the same message, every result after PUBREC is nil or carries the PUBREL-stage closure over the same message, the PUBREL stage never packs or writes a PUBLISH and writes at most the PUBREL packet with the message's id, success only after a receive on the channel registered under that id.",
+   text="Proof of the sender-side QoS 2 stage mechanism the exactly-once argument rests on: every error returned before PUBREC carries the PUBLISH-stage retry closure over the same message, every result after PUBREC is nil or carries the PUBREL-stage closure over the same message, the PUBREL stage never packs or writes a PUBLISH and writes at most the PUBREL packet with the message's id, success only after a receive on the channel registered under that id. The task loop never runs a task between noticing a client switch and the new client's Connect having returned.",
    note="The broker-side receiver rules (discard duplicate id, release on PUBREL) are assumed; composing the per-function contracts into 'delivered exactly once' is a paper lemma (DESIGN.md 4.C02). RetryClient.Retry's exact re-queue is verified under C01/C03 (defect D3 found there and fixed). Closure invariants (captured retry variables hold the stage closures over the same message) are checked at the direct call site and assumed for calls through the retry queue.",
    ref="DESIGN.md section 4.C02"),
  "C04": dict(
@@ -39,7 +39,7 @@ claims.update({
    note="The cross-goroutine composition (a channel is reachable only through its map entry until serve removes it) is a rely/guarantee lemma in DESIGN.md 4.C07; id uniqueness is imported from C15. Channel invariants (waiter channels carry non-nil packets and are never closed) are assumed at receives and are obligations at sends/closes. Ping and Connect waiters are under contract too.",
    ref="DESIGN.md section 4.C07"),
  "C11": dict(
-   text="Proof of wait-set contracts for Connect, Ping, publish (both QoS 2 stages), subscribe and unsubscribe: the single blocking select of each call (no default arm) waits on the client's connClosed channel, on Done() of the call's own context and on its own waiter; there is no bare blocking send/receive; the cancel branch returns an error whose cause is that context's Err(), the closed branch ErrClosedTransport; the reader goroutine closes connClosed on every exit path; RetryClient.Disconnect does not block; reconnectClient.Disconnect waits only on the loop's done channel or its context.",
+   text="Proof of wait-set contracts for Connect, Ping, publish (both QoS 2 stages), subscribe and unsubscribe: the single blocking select of each call (no default arm) waits on the client's connClosed channel, on Done() of the call's own context and on its own waiter; there is no bare blocking send/receive; the cancel branch returns an error whose cause is that context's Err(), the closed branch ErrClosedTransport; the reader goroutine closes connClosed on every exit path; RetryClient.Disconnect does not block; reconnectClient.Disconnect waits only on the loop's done channel or its context. Application callbacks (ConnState, OnError, Handler.Serve) are invoked with no library mutex held, so a callback that re-enters the client cannot wedge the reader goroutine before it closes Done().",
    note="Restricted claim: 'returns promptly' is liveness and is not decided (needs Transport.Write/Close and callbacks to return).",
    ref="DESIGN.md section 4.C11"),
  "C12": dict(
@@ -74,7 +74,7 @@ claims.update({
    note="Lock-guarded fields are modelled as arbitrary at each acquisition (values 'at lock time' via guardVal). The keep-alive goroutine of the reconnecting client is under contract (own-client error; defect D5 found there and fixed). The relative order of Active and Closed when CONNACK and connection end race is not decided.",
    ref="DESIGN.md section 4.C16"),
  "C18": dict(
-   text="Proof that every request issued by a task closure (first transmissions and, after the fix, retransmissions) uses a context produced by requestContext from the task context, that a failing request is reported through onError, queued with its retry handle and marks the connection for closing (newRetryByError), and that requestContext wraps WithTimeout(ctx, ResponseTimeout) when a timeout is configured.",
+   text="Proof that every request issued by a task closure (first transmissions and, after the fix, retransmissions) uses a context produced by requestContext from the task context, that a failing request is reported through onError, queued with its retry handle and marks the connection for closing (newRetryByError), and that requestContext wraps WithTimeout(ctx, ResponseTimeout) when a timeout is configured. The 'do not queue' branch of the task closures reacts only to cancellation of the caller's context; a response timeout (the context's error is a RequestTimeoutError) keeps the request queued.",
    note="The task loop closing the client when newRetryByError is set and (*requestContext).Err are under contract. Defect D9 (retransmissions had no timeout) was found here and fixed. Real time is not modelled.",
    ref="DESIGN.md section 4.C18"),
 })
@@ -85,14 +85,14 @@ claims.update({
    note="'Never dials again after Disconnect' and 'Disconnect returns' as whole-history / liveness statements are not decided: Go's select may pick the expired timer when the stop request is ready at the same instant, and termination needs Dialer/Transport calls to return. Observation (not part of C09): a dial that completes after Disconnect leaves its connection open when the loop exits. Trusted: Connect and Disconnect are called once per reconnectClient; sync.Once runs its function at most once; Dialer returns a client with a transport on success; durations are below 2^62 ns and non-negative (precondition).",
    ref="DESIGN.md section 4.C09"),
  "C13": dict(
-   text="Proof for KeepAlive with a loop contract: every iteration is tick receive -> WithTimeout(ctx, timeout) -> one Ping with that context, and continues only if Ping returned nil; it returns only after a failing Ping, and classifies: parent context done (checked first) -> wraps ctx.Err(), never ErrPingTimeout; else ping context done -> wraps ErrPingTimeout; else the ping error itself. Reconnect side: the loop starts exactly one keep-alive goroutine per successful connection iff PingInterval>0, bound to that connection's client, interval and timeout; on a keep-alive error the goroutine records the error on and closes its own connection; the loop re-dials after the connection ended with a non-nil Err().",
+   text="Proof for KeepAlive with a loop contract: every iteration is tick receive -> WithTimeout(ctx, timeout) -> one Ping with that context, and continues only if Ping returned nil; it returns only after a failing Ping, and classifies: parent context done (checked first) -> wraps ctx.Err(), never ErrPingTimeout; else ping context done -> wraps ErrPingTimeout; else the ping error itself. Reconnect side: the loop starts exactly one keep-alive goroutine per successful connection iff PingInterval>0, bound to that connection's client, interval and timeout; on a keep-alive error the goroutine records the error on and closes its own connection; the loop re-dials after the connection ended with a non-nil Err(). Ping registers its PINGRESP waiter (under the signaller's lock) before the PINGREQ is written and waits on exactly that channel.",
    note="Real time is not modelled ('every interval', 'within the timeout' are the ticker's and context's contracts). (*BaseClient).Ping's wait set is verified under C11. Trusted: context/timer semantics, Client.Ping returns.",
    ref="DESIGN.md section 4.C13"),
 })
 
 claims.update({
  "C17": dict(
-   text="Proof of the handler propagation chain, function by function: RetryClient.Handle stores the handler and forwards it to the client that is current under the same lock hold; RetryClient.Connect installs the stored handler (value read under the lock) on the current client before calling that client's Connect; BaseClient.Handle sets exactly the handler field; BaseClient.Connect/init leave the handler field untouched (checked frame); the reader loop hands every delivered message to the handler field's value read under the lock in that iteration; the reconnect loop calls RetryClient.Connect exactly once for every successfully dialled client, after SetClient of that client.",
+   text="Proof of the handler propagation chain, function by function: RetryClient.Handle stores the handler and forwards it to the client that is current under the same lock hold; RetryClient.Connect installs the stored handler (value read under the lock) on the current client before calling that client's Connect; BaseClient.Handle sets exactly the handler field; BaseClient.Connect/init leave the handler field untouched (checked frame); the reader loop hands every delivered message to the handler field's value read under the lock in that iteration; the reconnect loop calls RetryClient.Connect exactly once for every successfully dialled client, after SetClient of that client. The install in RetryClient.Connect and the store-and-forward in RetryClient.Handle each happen inside one hold of the client's mutex, so neither can overwrite the other with a stale handler.",
    note="'No message is dropped merely because of a reconnect' as a whole-history statement is the composition of these contracts (DESIGN.md 4.C17) and is not mechanised; messages that arrive before the application registers any handler are dropped by design (handler == nil). Lock-guarded fields are arbitrary at each acquisition.",
    ref="DESIGN.md section 4.C17"),
 })
